@@ -98,3 +98,74 @@
   (let ((h1d (mm3_fmix h1c)) (h2d (mm3_fmix h2c)))
     (bvadd h1d h2d))))))))))
 
+;; block hex
+; sig hexdig(uint8) uint8
+; sig hexval(uint8) uint8
+; sig ishex(uint8) bool
+; lower-case hexadecimal digit of a nibble value 0..15
+(define-fun hexdig ((n (_ BitVec 8))) (_ BitVec 8) (ite (bvult n #x0a) (bvadd #x30 n) (bvadd #x57 n)))
+(define-fun ishex ((c (_ BitVec 8))) Bool
+  (or (and (bvuge c #x30) (bvule c #x39)) (and (bvuge c #x61) (bvule c #x66)) (and (bvuge c #x41) (bvule c #x46))))
+(define-fun hexval ((c (_ BitVec 8))) (_ BitVec 8)
+  (ite (and (bvuge c #x30) (bvule c #x39)) (bvsub c #x30)
+  (ite (and (bvuge c #x61) (bvule c #x66)) (bvsub c #x57)
+  (ite (and (bvuge c #x41) (bvule c #x46)) (bvsub c #x37) #xff))))
+
+;; block uuid
+; RFC 4122 §4.1.2 layout of a version-1 UUID built from a 60-bit timestamp t,
+; a 14-bit clock sequence and a 6-byte node; §3 string form 8-4-4-4-12.
+; sig uuid_v1_byte(int64, uint32, int) uint8
+; sig uuid_ts(bytes) int64
+; sig uuid_clock(bytes) uint32
+; sig uuid_off(int) int
+; sig uuid_version(bytes) int
+(define-fun uuid_v1_byte ((t (_ BitVec 64)) (clock (_ BitVec 32)) (i (_ BitVec 64))) (_ BitVec 8)
+  (ite (= i #x0000000000000000) ((_ extract 31 24) t)
+  (ite (= i #x0000000000000001) ((_ extract 23 16) t)
+  (ite (= i #x0000000000000002) ((_ extract 15 8) t)
+  (ite (= i #x0000000000000003) ((_ extract 7 0) t)
+  (ite (= i #x0000000000000004) ((_ extract 47 40) t)
+  (ite (= i #x0000000000000005) ((_ extract 39 32) t)
+  (ite (= i #x0000000000000006) (concat #x1 ((_ extract 59 56) t))
+  (ite (= i #x0000000000000007) ((_ extract 55 48) t)
+  (ite (= i #x0000000000000008) (concat #b10 ((_ extract 13 8) clock))
+       ((_ extract 7 0) clock)))))))))))
+(define-fun uuid_ts ((a (Array (_ BitVec 64) (_ BitVec 8))) (o (_ BitVec 64))) (_ BitVec 64)
+  (concat #x0 ((_ extract 3 0) (select a (bvadd o #x0000000000000006))) (select a (bvadd o #x0000000000000007))
+          (select a (bvadd o #x0000000000000004)) (select a (bvadd o #x0000000000000005))
+          (select a o) (select a (bvadd o #x0000000000000001)) (select a (bvadd o #x0000000000000002)) (select a (bvadd o #x0000000000000003))))
+(define-fun uuid_clock ((a (Array (_ BitVec 64) (_ BitVec 8))) (o (_ BitVec 64))) (_ BitVec 32)
+  (concat #x0000 #b00 ((_ extract 5 0) (select a (bvadd o #x0000000000000008))) (select a (bvadd o #x0000000000000009))))
+(define-fun uuid_version ((a (Array (_ BitVec 64) (_ BitVec 8))) (o (_ BitVec 64))) (_ BitVec 64)
+  (concat #x00000000000000 #x0 ((_ extract 7 4) (select a (bvadd o #x0000000000000006)))))
+; sig uuid_hy(int) int
+; number of hyphens strictly before position p of the 36-character form
+(define-fun uuid_hy ((p (_ BitVec 64))) (_ BitVec 64)
+  (ite (bvsle p #x0000000000000008) #x0000000000000000
+  (ite (bvsle p #x000000000000000d) #x0000000000000001
+  (ite (bvsle p #x0000000000000012) #x0000000000000002
+  (ite (bvsle p #x0000000000000017) #x0000000000000003 #x0000000000000004)))))
+; position of the first hex digit of byte i in the 36-character form
+(define-fun uuid_off ((i (_ BitVec 64))) (_ BitVec 64)
+  (bvadd (bvmul i #x0000000000000002)
+    (ite (bvult i #x0000000000000004) #x0000000000000000
+    (ite (bvult i #x0000000000000006) #x0000000000000001
+    (ite (bvult i #x0000000000000008) #x0000000000000002
+    (ite (bvult i #x000000000000000a) #x0000000000000003 #x0000000000000004))))))
+
+;; block hexcount
+; number of hexadecimal digits among the first p bytes of a byte sequence,
+; defined by recursion on p (instances via `use`):
+;   axiom hexcount_base_ax : forall a o.   hexcount(a,o,0) = 0
+;   axiom hexcount_step_ax : forall a o p. p >= 0 => hexcount(a,o,p+1) = hexcount(a,o,p) + [ishex(a[o+p])]
+; sig hexcount(bytes, int) int
+; sig hexcount_base_ax(bytes) bool
+; sig hexcount_step_ax(bytes, int) bool
+(declare-fun hexcount ((Array (_ BitVec 64) (_ BitVec 8)) (_ BitVec 64) (_ BitVec 64)) (_ BitVec 64))
+(define-fun hexcount_base_ax ((a (Array (_ BitVec 64) (_ BitVec 8))) (o (_ BitVec 64))) Bool
+  (= (hexcount a o #x0000000000000000) #x0000000000000000))
+(define-fun hexcount_step_ax ((a (Array (_ BitVec 64) (_ BitVec 8))) (o (_ BitVec 64)) (p (_ BitVec 64))) Bool
+  (=> (bvsge p #x0000000000000000)
+      (= (hexcount a o (bvadd p #x0000000000000001))
+         (bvadd (hexcount a o p) (ite (ishex (select a (bvadd o p))) #x0000000000000001 #x0000000000000000)))))
+
